@@ -30,6 +30,7 @@ func runC14(c *Ctx) {
 	r.Rule("C14.b1t8-bits", "b1t8 Encode: trit 8g+i = bit i of byte g (values 0/1), length 8n, in bounds; Decode: bit j of byte g = trit 8g+j, accepted exactly when every trit is 0 or 1")
 	r.Assume("iota.go v1.0.0 trinary.MustTritsToTryteValue / MustPutTryteTrits / MustTryteToTryteValue / MustTryteValueToTryte convert between 3 balanced trits, tryte characters and values -13..13")
 
+	pureScan(c, "C14.pure.no-package-state", c.P.Func("pkg/encoding/b1t6", "Encode"), c.P.Func("pkg/encoding/b1t6", "EncodeToTrytes"), c.P.Func("pkg/encoding/b1t6", "Decode"), c.P.Func("pkg/encoding/b1t6", "DecodeTrytes"), c.P.Func("pkg/encoding/b1t8", "Encode"), c.P.Func("pkg/encoding/b1t8", "Decode"))
 	c14B1t6(c)
 	c14Groups(c)
 	c14B1t8(c)
